@@ -124,6 +124,36 @@ def run_scenarios(fa, res, codec, tier):
                 res.add(Violation("c04.write", f"write-raised:{type(e).__name__}:scenario", f"writer raised {type(e).__name__}: {e} | {short(info, 400)}", info))
                 continue
             check_read(res, fa, "read", info, io.BytesIO(fo.getvalue()), exp, exp_canon, codec, {})
+    # (1b) a record that fails part-way inside a sequence of writes: the accepted records must read back
+    from fastavro._write_py import Writer
+
+    S2 = {"type": "record", "name": "Rw", "fields": [{"name": "a", "type": "long"}, {"name": "b", "type": "string"}, {"name": "c", "type": ["null", "int"], "default": None}]}
+    n2, d2 = names.resolve(S2)
+    good = [{"a": 1, "b": "x", "c": 5}, {"a": -70, "b": "yy" * 40}, {"a": 8192, "b": ""}]
+    bads = [{"a": 1, "b": 5}, {"a": 1, "b": "ok", "c": "no"}, {"a": "no", "b": "x"}]
+    for iv in (1, 30, 16000):
+        for validator in (False, True):
+            for where in (0, 1, 2):
+                info = {"schema": S2, "records": good, "codec": codec, "sync_interval": iv, "axis": f"scenario:failed-write-at-{where}-validator-{validator}"}
+                note_case(info)
+                keys.add(("failed-write", iv, validator, where))
+                res.evals += 1
+                fo = io.BytesIO()
+                try:
+                    w = Writer(fo, copy.deepcopy(S2), codec=codec, sync_interval=iv, sync_marker=marker, validator=validator)
+                    for i, g in enumerate(good):
+                        if i == where:
+                            for b in bads:
+                                try:
+                                    w.write(copy.deepcopy(b))
+                                except Exception:
+                                    pass
+                        w.write(copy.deepcopy(g))
+                    w.flush()
+                except Exception as e:
+                    res.add(Violation("c04.write", f"write-raised:{type(e).__name__}:scenario", f"{type(e).__name__}: {e} | {short(info, 300)}", info))
+                    continue
+                check_read(res, fa, "read", info, io.BytesIO(fo.getvalue()), cont.expected(n2, d2, good), canon.canonical((n2, d2)), codec, {})
     # (2) readers alive at the same time
     files = {}
     datum = {"item": {"qty": 3, "code": "abc"}, "more": [{"qty": 70, "code": "xyz"}], "next": {"item": {"qty": 1, "code": "n"}, "more": [], "next": None}}
